@@ -13,6 +13,7 @@ import PotasscoVerif.Drv.OptIndex
 import PotasscoVerif.Drv.TheoryData
 import PotasscoVerif.Drv.ValueStore
 import PotasscoVerif.Drv.Options
+import PotasscoVerif.Drv.OptAssign
 open PotasscoVerif.Drv
 
 def dispatch (line : String) : String :=
@@ -33,6 +34,7 @@ def dispatch (line : String) : String :=
   | "vs" :: args => runVS args
   | "rc" :: args => runRC args
   | "op" :: args => runOP args
+  | "oa" :: args => runOA args
   | _ => "bad-component"
 
 partial def loop (h : IO.FS.Stream) (out : IO.FS.Stream) : IO Unit := do
